@@ -198,7 +198,8 @@ def _dataset_case(draw):
             'dsets': dsets, 'alpha': draw(st.sampled_from([0.01, 0.05])),
             'ndf': None if marginal else draw(st.sampled_from([None, None, 5, 30])),
             'alpha2': 0.01 if marginal else draw(st.sampled_from([0.01, 0.05, 0.2])),
-            'bad_bins': bad_bins, 'verb': draw(_VERB), 'rep': draw(_REP)}
+            'bad_bins': bad_bins, 'verb': draw(_VERB), 'rep': draw(_REP),
+            'layout': draw(st.sampled_from(['C', 'C', 'F'])) if len(shape) >= 2 else 'C'}
 
 
 @st.composite
@@ -357,20 +358,24 @@ def _dataset_arrays(case):
     return values, ref_err, out
 
 
-def _make_ds(shape, kinds, val, err, name, shift=0.0):
+def _make_ds(shape, kinds, val, err, name, shift=0.0, layout='C'):
     if not shape:
         return Dataset(np.float64(val[0]), np.float64(err[0]), name=name, what='w')
     bins = _bins(shape, kinds, shift) if kinds else None
-    return Dataset(np.array(val, dtype=float).reshape(shape),
-                   np.array(err, dtype=float).reshape(shape), bins=bins, name=name, what='w')
+    value = np.array(val, dtype=float).reshape(shape)
+    error = np.array(err, dtype=float).reshape(shape)
+    if layout == 'F':            # same numbers, Fortran memory order (e.g. a transposed view)
+        value, error = np.asfortranarray(value), np.asfortranarray(error)
+    return Dataset(value, error, bins=bins, name=name, what='w')
 
 
 def _dataset_result(case):
     shape, kinds = tuple(case['shape']), case['bins']
     values, ref_err, others = _dataset_arrays(case)
-    dsref = _make_ds(shape, kinds, values, ref_err, case['ref']['name'])
+    layout = case.get('layout', 'C')
+    dsref = _make_ds(shape, kinds, values, ref_err, case['ref']['name'], layout=layout)
     dsets = [_make_ds(shape, kinds, val, err, dset['name'],
-                      shift=1.0 if case['bad_bins'] and idx == 0 else 0.0)
+                      shift=1.0 if case['bad_bins'] and idx == 0 else 0.0, layout=layout)
              for idx, (dset, (val, err)) in enumerate(zip(case['dsets'], others))]
     kind = case['kind']
     if kind == 'equal':
@@ -681,6 +686,8 @@ def _run_rendering(case, out):
                        'bins=some' if case['bins'] else 'bins=none']
         if 1 in shape:
             out.labels.append('unit-dim')
+        if case.get('layout') == 'F':
+            out.labels.append('fortran-ordered-arrays')
         if len(case['dsets']) > 1:
             out.labels.append('nds>1')
     truth = bool(result)                       # read before any rendering
